@@ -88,6 +88,14 @@ def main():
     missing = [k for k in need if k not in kinds]
     print("graph rows by (call, result): %s missing: %s" % (sorted(kinds.items()), missing))
     ok &= not missing
+    # 4. the specification itself finds the repaired defects: with Fixed = FALSE (original arithmetic) TLC must report
+    #    the binding clauses on the buffer kind (P1/P2) and the batch clause on the fleet kind (P4)
+    for kind, inv in (("buffer_fifo", "M_C02_Distinct"), ("buffer_fifo", "M_C02_GetHonoured")):
+        c = dict(storecfg.configs("quick")[kind], Fixed=False)
+        res = tlc.run_tlc("Store", tlc.make_cfg(c, invariants=[inv], view="View"), workers=8, timeout=300)
+        found = any(n == inv for _k, n in res.violations)
+        print("Fixed=FALSE %s %s -> %s" % (kind, inv, "counterexample found (as expected)" if found else "NO counterexample"))
+        ok &= found
     print("SELFTEST", "PASSED" if ok else "FAILED")
     return 0 if ok else 1
 
